@@ -12,6 +12,9 @@ extra = [a[len("--also="):].split(",") for a in sys.argv if a.startswith("--also
 ids = args or sorted(os.listdir(V + "/seeded"))
 ids = [i for i in ids if os.path.isdir(V + "/seeded/" + i)]
 results = {}
+import shutil, tempfile
+_bk = tempfile.mkdtemp(prefix="evbk-")
+shutil.copytree(V + "/evidence", _bk + "/evidence")
 assert subprocess.run(["git", "-C", "/repo", "status", "--porcelain", "--untracked-files=no"], capture_output=True, text=True).stdout.strip() == "", "/repo not clean"
 for sid in ids:
     meta = json.load(open("%s/seeded/%s/meta.json" % (V, sid)))
@@ -34,6 +37,9 @@ for sid in ids:
     caught = [p for p, x in r.items() if x["exit"] != 0]
     results[sid] = {"property": pid, "checks": r, "caught_by": caught}
     print(sid, "CAUGHT by " + ",".join(caught) if caught else "MISSED", "|", "; ".join(x["first"][0][:150] for p, x in r.items() if x["first"]))
+shutil.rmtree(V + "/evidence")
+shutil.copytree(_bk + "/evidence", V + "/evidence")
+shutil.rmtree(_bk)
 if os.environ.get("SEEDED_WRITE", "1") == "1":
     path = V + "/seeded/RESULTS.json"
     old = json.load(open(path)) if os.path.exists(path) else {}
